@@ -12,6 +12,7 @@ import (
 	"strconv"
 	"time"
 
+	"verif/internal/c02"
 	"verif/internal/chancheck"
 	"verif/internal/evidence"
 	"verif/internal/synccheck"
@@ -101,6 +102,8 @@ func check(id, tier string) int {
 	switch id {
 	case "C13":
 		return synccheck.Run(tier, seed(), workers())
+	case "C02":
+		return c02.Run(tier, seed(), workers())
 	}
 	fmt.Fprintf(os.Stderr, "unknown property %q\n", id)
 	return 2
@@ -108,6 +111,8 @@ func check(id, tier string) int {
 
 func replay(rp *evidence.Replay) int {
 	switch rp.Kind {
+	case "program:C02":
+		return c02.Replay(rp)
 	case "chanscript":
 		return chancheck.Replay(rp)
 	case "syncscript":
